@@ -1209,6 +1209,9 @@ where
         }
 
         std::mem::swap(args, &mut best_args);
+        // the failed attempt ran in a window that starts at its first item: give the caller
+        // its own scope back, `--help` to the left of the window must still be found
+        args.set_scope(original_scope);
         Err(Error(best_error))
     }
 
